@@ -386,9 +386,6 @@ func (w *world) seqRegister(sid, name, reuseAtt int, cfgok bool) int {
 		w.ports[att] = 0
 		w.kind("unexpected-run-failure")
 	}
-	if cls != 0 {
-		w.ports[att] = 0 // nothing of this attempt listens; do not probe a port the OS may hand out again
-	}
 	w.item(fmt.Sprintf("IAct (AReq %d (RNew %d %d 1%%Z %s %s))", sid, name, att, hx.Bool(cfgok), hx.Bool(runok)))
 	w.item("ISettle")
 	w.outs = append(w.outs, outRec{sid, fmt.Sprintf("ONewProxyResp %d %d %d %d true", sid, name, att, cls)})
@@ -520,6 +517,111 @@ func seqHistory(g *hx.Gen, w *world) {
 	}
 }
 
+// ---- directed cross-session histories: the former owner of a name acts again ----
+// S registers p and closes it; T registers p; then S (variant 0) repeats the close, (1) disconnects,
+// (2) is replaced by a re-login.  T must keep the name and keep working; U's registration of p must be
+// refused.  Run under both quota settings and for tcp and stcp proxies.
+type directed struct {
+	variant, quota int
+	stcp           bool
+}
+
+var directedCases = func() []directed {
+	var l []directed
+	for v := 0; v < 3; v++ {
+		for _, q := range []int{0, 3} {
+			for _, st := range []bool{false, true} {
+				l = append(l, directed{v, q, st})
+			}
+		}
+	}
+	return l
+}()
+
+func (w *world) reg(sid, name int, stcp bool) int {
+	if stcp {
+		return w.seqRegisterStcp(sid, name)
+	}
+	return w.seqRegister(sid, name, -1, true)
+}
+
+func (w *world) incumbentWorks(sid, name int, stcp bool, what string) {
+	att := -1
+	for a := len(w.ports) - 1; a >= 0; a-- { // newest attempt of that session under that name that listens
+		if stcp && w.stcpName[a] == name && w.stcpCur[name] == a {
+			att = a
+			break
+		}
+		if !stcp && w.ports[a] > 0 && !hx.TCPBindable(bindAddr, w.ports[a]) {
+			att = a
+			break
+		}
+	}
+	ok := att >= 0
+	if ok && stcp {
+		ok = w.stcpListening(name)
+	} else if ok {
+		ok = w.carries(sid, w.ports[att])
+	}
+	w.kind("incumbent-check")
+	if !ok {
+		w.fail("monitor:"+what, fmt.Sprintf("%s: the proxy %d of session %d no longer works", what, name, sid))
+	}
+	if tag := w.s.Svc.VerifC12Names()[pname(name)]; tag != tagOf(sid) {
+		w.fail("monitor:"+what+"-name-table", fmt.Sprintf("%s: the name table says %q for name %d, expected %s", what, tag, name, tagOf(sid)))
+	}
+}
+
+func directedHistory(g *hx.Gen, w *world, d directed) {
+	S := w.seqLogin("")
+	T := w.seqLogin("")
+	U := w.seqLogin("")
+	if S < 0 || T < 0 || U < 0 {
+		return
+	}
+	p := g.Intn(3)
+	if w.reg(S, p, d.stcp) != 0 {
+		w.fail("directed-setup", "S could not register the name")
+		return
+	}
+	if g.Intn(2) == 0 {
+		w.reg(S, (p+1)%3, d.stcp) // a second proxy S keeps
+	}
+	w.seqClose(S, p)
+	if w.reg(T, p, d.stcp) != 0 {
+		w.fail("monitor:name-not-free-after-close", "T could not register a name its former owner had closed")
+		return
+	}
+	switch d.variant {
+	case 0:
+		w.seqClose(S, p) // S no longer owns anything of that name
+		w.kind("former-owner-repeats-close")
+	case 1:
+		w.seqDisconnect(S)
+		w.kind("former-owner-disconnects")
+	case 2:
+		w.seqLogin(w.ridNames[w.peerRid[S]])
+		w.kind("former-owner-replaced")
+	}
+	if len(w.fails) > 0 {
+		return
+	}
+	w.incumbentWorks(T, p, d.stcp, "incumbent-after-former-owner-acts")
+	if cls := w.reg(U, p, d.stcp); cls != 2 {
+		w.fail("monitor:duplicate-accepted-after-former-owner-acts", fmt.Sprintf("U's registration of the live name %d got class %d, expected 2 (already exists)", p, cls))
+	}
+	w.incumbentWorks(T, p, d.stcp, "incumbent-after-refused-duplicate")
+	// the quota is given back exactly once per close
+	if d.quota > 0 && !d.stcp && d.variant == 0 {
+		for k := 0; k < d.quota+1; k++ {
+			w.seqRegister(S, 10+k, -1, true)
+		}
+		w.seqClose(S, 10)
+		w.seqRegister(S, 20, -1, true)
+		w.seqRegister(S, 21, -1, true)
+	}
+}
+
 // ---- driver ----
 
 func runSessions(cfg *hx.RunCfg) error {
@@ -542,7 +644,12 @@ func runSessions(cfg *hx.RunCfg) error {
 			name = "sched-" + schedules[i%len(schedules)].name
 		}
 		quota := 0
-		if !gated && g.Intn(5) < 2 {
+		di := i - nSched
+		isDirected := !gated && di < len(directedCases)
+		if isDirected {
+			name = fmt.Sprintf("directed-%d", di)
+			quota = directedCases[di].quota
+		} else if !gated && g.Intn(5) < 2 {
 			quota = 1 + g.Intn(3)
 		}
 		w, err := newWorld(name, quota)
@@ -552,6 +659,9 @@ func runSessions(cfg *hx.RunCfg) error {
 		if gated {
 			runSchedule(g, w, schedules[i%len(schedules)])
 			kinds["schedule:"+schedules[i%len(schedules)].name]++
+		} else if isDirected {
+			directedHistory(g, w, directedCases[di])
+			kinds["directed"]++
 		} else {
 			seqHistory(g, w)
 		}
